@@ -414,7 +414,7 @@ def gen_case(rng, tier, bigbuf=False):
     reqs = []
     anchors = sorted({int(g) * cs for g in clusters} | {0, max(0, size - 1)} | {k * l2n * cs for k in range(1, ntab)})
     anchors = [x for x in anchors if x < size]
-    maxlen = 1 << 22
+    maxlen = (1 << 22) if tier == 'thorough' else (1 << 20)
     for _ in range(6):
         kind = rng.weighted([("raw", 5), ("bytes", 4), ("rawtail", 1)])
         shape = rng.weighted([("in_sc", 2), ("x_sc", 3), ("x_cluster", 4), ("x_l2", 2), ("tail", 2), ("whole", 1),
@@ -453,9 +453,9 @@ def gen_case(rng, tier, bigbuf=False):
                 n = max(512, ((size - off) + rng.randrange(0, 3 * cs) + 511) // 512 * 512)
                 n = min(n, maxlen)
         else:
-            if rng.chance(0.1):
-                n = -1
             n = min(n, maxlen)
+            if rng.chance(0.1) and size - off <= maxlen:
+                n = -1
         reqs.append([kind, off, n, shape])
     c["reqs"] = reqs
     return c
@@ -499,7 +499,7 @@ class Qcow2Suite(Suite):
         if self.bigbuf:
             n = 300 if tier == "thorough" else 30
         else:
-            n = 3000 if tier == "thorough" else 170
+            n = 3000 if tier == "thorough" else 120
         return [gen_case(rng, tier, self.bigbuf) for _ in range(n)]
 
     # -- implementation side (worker process)
